@@ -246,6 +246,57 @@ func c13AddFacts(c *ctxT, sb *strings.Builder) {
 	}
 	sb.WriteString("\n")
 	c.facts["C13.addGuards"] = g
+
+	// --- re-activation path: which fields of the record AddDelegate (and the keeper helpers it hands the record to) sets.
+	// `oracle.<F> = <rhs>` statements in AddDelegate after the amount update, and in every keeper method called as
+	// `s.<M>(ctx, oracle)` whose parameter is the record; `guarded` = the statement sits inside `if !oracle.Online { … }`.
+	type asg struct {
+		rhs     string
+		guarded bool
+	}
+	sets := map[string]asg{}
+	var scan func(body *ast.BlockStmt, depth int)
+	scan = func(body *ast.BlockStmt, depth int) {
+		if body == nil {
+			return
+		}
+		var walk func(list []ast.Stmt, guarded bool)
+		walk = func(list []ast.Stmt, guarded bool) {
+			for _, st := range list {
+				switch x := st.(type) {
+				case *ast.AssignStmt:
+					if len(x.Lhs) == 1 && len(x.Rhs) == 1 {
+						if se, ok := x.Lhs[0].(*ast.SelectorExpr); ok && squash(c.src(se.X)) == "oracle" {
+							sets[se.Sel.Name] = asg{squash(c.src(x.Rhs[0])), guarded}
+						}
+					}
+				case *ast.IfStmt:
+					cond := squash(c.src(x.Cond))
+					walk(x.Body.List, guarded || cond == "!oracle.Online" || strings.HasPrefix(cond, "!oracle.Online &&"))
+				case *ast.ExprStmt:
+					if ce, ok := x.X.(*ast.CallExpr); ok && depth < 2 && len(ce.Args) == 2 && squash(c.src(ce.Args[1])) == "oracle" {
+						if se, ok := ce.Fun.(*ast.SelectorExpr); ok && se.Sel.Name != "SetOracle" {
+							if callee := c.findFunc(c13Keeper, "Keeper", se.Sel.Name); callee != nil {
+								scan(callee.Body, depth+1)
+							}
+						}
+					}
+				}
+			}
+		}
+		walk(body.List, false)
+	}
+	if fd != nil {
+		scan(fd.Body, 0)
+	}
+	on := sets["Online"]
+	sh := sets["StartHeight"]
+	st := sets["SlashTimes"]
+	sb.WriteString("/-- re-activation through `AddDelegate` (incl. keeper helpers the record is handed to): fields it sets -/\n")
+	fmt.Fprintf(sb, "def addSetsOnline : Bool := %s\n", lb(on.rhs == "true"))
+	fmt.Fprintf(sb, "/-- `oracle.StartHeight = ctx.BlockHeight()` … -/\ndef addSetsStartHeight : Bool := %s\n/-- … only inside `if !oracle.Online { … }` (an online oracle keeps its start height) -/\ndef addStartHeightOnlyWhenOffline : Bool := %s\n", lb(sh.rhs == "ctx.BlockHeight()"), lb(sh.guarded))
+	fmt.Fprintf(sb, "def addResetsSlashTimes : Bool := %s\n\n", lb(st.rhs == "0"))
+	c.facts["C13.reactivation"] = map[string]string{"Online": on.rhs, "StartHeight": sh.rhs, "SlashTimes": st.rhs}
 }
 
 // ---------------------------------------------------------------------------------------------------------------
